@@ -4,7 +4,9 @@ ParseClasses.tla enumerates the classes of valid parses the block encoder distin
 boundaries 127/128, 32511/32512, the maximum of one sequence per 3 bytes; the shape of the literal-length, match-length
 and offset code sets that feed the FSE table builder: only code 0 / a single code / two / many; literals raw or Huffman
 over one, two or many symbols; and code histograms "k codes used c times each, plus one used once" for which the
-specification computes the accuracy log the table builder picks, reaching the clamp of every field); the harness materialises each class as a concrete valid parse -- the block's bytes are
+specification computes the accuracy log the table builder picks, reaching the clamp of every field); chains of three
+dependent blocks (literals only / kept with a far match / stored raw after its tables were built, over two alphabets:
+new, treeless and discarded Huffman tables in every order); the harness materialises each class as a concrete valid parse -- the block's bytes are
 synthesised from the plan, so every match is true by construction -- and drives the real compressor through the public
 Matcher trait.  ALL valid parses (match length >= 3, any offset incl. overlapping) of all binary blocks of 3..7 bytes
 after histories of 0 / 3 / 5 bytes are run as well, and a sample of them is judged by TLC with Matcher!SeqsOk (minimum
@@ -43,6 +45,18 @@ def check(ctx):
     # code histograms that drive the FSE table builder into every accuracy-log regime (incl. the clamps)
     from .c12 import hist_classes
     hist_classes(ctx)
+    # chains of three dependent blocks (what the encoder remembers about Huffman tables vs what a decoder holds)
+    rep = ctx.path("c16chains.json")
+    vh(ctx, ["c16chains", ctx.seed, ctx.tier, rep], timeout=7200)
+    hj = json.load(open(rep))
+    ctx.evaluations += hj["chains_run"]
+    ctx.distinct += hj["chains_run"]
+    ctx.cov["block_chains"] = {k: hj[k] for k in ("chains_run", "mismatches", "block_kinds_of_chain_blocks")}
+    for m in hj["first"]:
+        ctx.violation("chain of blocks %s through a user matcher: %s" % (m["chain"], m["error"]), m, tag="chain")
+    kinds = hj["block_kinds_of_chain_blocks"]
+    if hj["chains_run"] < 100 or not kinds.get("type0_lit-1") or not kinds.get("type2_lit3") or not kinds.get("type2_lit2"):
+        raise ToolError("vacuous block chains: %s" % kinds)
     rows = ctx.path("tiny_parse_rows.ndjson")
     rep = ctx.path("c16tiny.json")
     vh(ctx, ["c16tiny", ctx.seed, ctx.tier, rows, rep], timeout=7200)
